@@ -182,7 +182,7 @@ DEFAULT_ATTRS = ("element", "aromatic", "charge", "hcount")
 def _canon_term(rsmi, backend, wl_iterations=3, node_attrs=DEFAULT_ATTRS):
     """Gallina term of the model for CanonRSMI(backend, ...).canonicalise(rsmi), or None outside the model"""
     gh = _raw_graphs(rsmi)
-    if gh is None or not _ascii_elems(*gh) or gh[0].number_of_nodes() == 0:
+    if gh is None or not _ascii_elems(*gh) or gh[0].number_of_nodes() == 0 or not _simple(*gh):
         return None
     g, h = E.from_nx(gh[0]), E.from_nx(gh[1])
     if backend == "wl":
@@ -218,7 +218,7 @@ def _hist_terms(case):
                 last.pop(st["obj"], None)
             elif op == "check" and st.get("api") != "taut":
                 gs = [_valid_graphs(st["m"]), _valid_graphs(st["t"])]
-                if gs[0] is None or gs[1] is None:
+                if gs[0] is None or gs[1] is None or not _simple(*gs[0]) or not _simple(*gs[1]):
                     continue
                 rc = st.get("method", "RC").upper() == "RC" or st.get("api") == "default"
                 if not rc and not _its_in_domain(gs):
@@ -349,6 +349,11 @@ def _wl_ranks(G, iterations=3, node_attrs=("element", "aromatic", "charge", "hco
     vals = sorted(set(seen.values()))
     idx = {c: i for i, c in enumerate(vals)}
     return {n: idx[c] for n, c in seen.items()}
+
+
+def _simple(*gs):
+    """no self-loops (a map number repeated on one side merges two atoms of the parsed graph: outside the model's domain)"""
+    return all(u != v for g in gs for u, v in g.edges())
 
 
 def _ascii_elems(*gs):
